@@ -23,7 +23,10 @@ type CommitPoint struct {
 }
 
 // CheckWAL evaluates the write-ahead invariants over a recorded trace:
-// W1 no user heap page is written carrying an LSN that is not yet in a log write before it;
+// W1 no user heap page is written carrying an LSN that is not yet in a log write before it, nor a link to a following page
+//
+//	whose creation record is not yet in a log write before it;
+//
 // W2 at every commit return of a writer its COMMIT record is in the log written so far (since the last truncation);
 // W3 after every log write the log is a sequence of whole, known records with increasing LSNs and per-transaction prevLSN chains.
 func CheckWAL(events []crashsim.Event, baseLog []byte, commits []CommitPoint, st *WALStats) *vf.Failure {
@@ -37,9 +40,13 @@ func CheckWAL(events []crashsim.Event, baseLog []byte, commits []CommitPoint, st
 		}
 	}
 	recsAll, _, _ := crashsim.ParseLog(all)
+	createdAt := map[int32]int32{} // heap page -> LSN of the NEWTABLEPAGE record that describes its creation (and its predecessor's link to it)
 	for _, r := range recsAll {
 		if r.Type == crashsim.RecNewTablePage {
 			prev[r.PageID] = r.PrevPg
+			if _, seen := createdAt[r.PageID]; !seen {
+				createdAt[r.PageID] = r.LSN
+			}
 		}
 	}
 	isUserHeap := func(id int32) bool {
@@ -120,6 +127,14 @@ func CheckWAL(events []crashsim.Event, baseLog []byte, commits []CommitPoint, st
 			}
 			if lsn > prevHwm {
 				st.OrderingMattered++
+			}
+			// the link to a following page is a change too: it is described by that page's NEWTABLEPAGE record (the link is set
+			// without touching this page's LSN)
+			if len(e.Data) >= 16 {
+				next := int32(binary.LittleEndian.Uint32(e.Data[12:16]))
+				if rl, ok := createdAt[next]; ok && next > 0 && prev[next] == e.PageID && rl > hwm {
+					return vf.Failf("w1-link-before-log", "event %d writes user heap page %d with a link to page %d, whose creation record (LSN %d) is not in any log write so far (newest LSN %d)", i, e.PageID, next, rl, hwm)
+				}
 			}
 		case crashsim.EvMarker:
 			for _, txn := range commitAt[i] {
